@@ -68,6 +68,8 @@ HOSTILE_SIGS = [
     'ah', 'a(h)', 'aah', 'a(hh)', 'ay', 'au', 'as', 'av', 'ad', 'a{sv}', 'a(ii)', 'ab', 'ag', 'ao',
     'a(yh)', 'aa{sh}',
     # many small containers followed by one illegal / unbalanced character
+    # a value that cannot be decoded, many containers deep (the failure path of nested values)
+    '(' * 22 + 's' + ')' * 22, '(' * 30 + 'ai' + ')' * 30, '(' * 26 + 'v' + ')' * 26, 'a{s' + '(' * 24 + 's' + ')' * 24 + '}',
     '(i)' * 28 + '!', '(i)' * 40 + ')', 'a{sv}' * 20 + '(', '(ii)' * 30 + 'z', 'ai' * 60 + '}', '((i))' * 25 + '(',
 ]
 
